@@ -288,8 +288,8 @@ def _machine(res, holder):
 
     specs = st.one_of(
         st.tuples(st.just("simple"), st.sampled_from(SIMPLE)),
-        st.tuples(st.just("global"), st.sampled_from(["os", "builtins", "collections", "foo"]),
-                  st.sampled_from(["system", "eval", "OrderedDict", "Bar"])),
+        st.tuples(st.just("global"), st.sampled_from(["os", "builtins", "collections", "foo", "Queue", "itertools", "copy_reg", "dbm"]),
+                  st.sampled_from(["system", "eval", "OrderedDict", "Bar", "izip", "Queue", "whichdb"])),
         st.tuples(st.just("const"), st.one_of(st.integers(-5, 70000), st.sampled_from(["a", "id", "", "os", "system", "builtins", "eval"]))),
         st.tuples(st.just("put"), st.integers(0, 3)),
         st.tuples(st.just("get"), st.integers(0, 3)),
@@ -303,7 +303,7 @@ def _machine(res, holder):
         st.tuples(st.just("const"), st.sampled_from(["os", "system", "y" * 70000])),
     )
     idx = st.integers(0, 40)
-    prof = asm.full_profile(vocab.ASM_GLOBS)
+    prof = asm.full_profile(vocab.ASM_GLOBS + vocab.ASM_GLOBS_PY2)
     starts = st.one_of(
         st.tuples(values.plain_values(max_leaves=6), st.sampled_from(range(6))).map(
             lambda t: pickle.dumps(t[0], protocol=t[1])
